@@ -110,11 +110,45 @@ where
                     if *n != star {
                         out.count("note/removed_count_differs_from_star");
                     }
+                    // conservation: removing an interior vertex replaces its star by cells that fill the same
+                    // region, so the (exact) volume of the cells that disappear equals that of the cells that appear
+                    if class == "interior" {
+                        match star_volume_balance(s.pre, s.post, *uuid) {
+                            Some((removed, added)) if removed.cmp(&added) != std::cmp::Ordering::Equal => {
+                                out.count("interior/volume_not_conserved");
+                                bad.push((format!("{:?}/embedding/volume-not-conserved", gu), format!("the cells that disappeared have D! x volume {:e}, the cells that appeared {:e} (exact comparison): the new cells overlap or leave a gap", removed.approx(), added.approx())));
+                            }
+                            Some(_) => out.count("interior/volume_conserved"),
+                            None => out.count("interior/volume_not_comparable"),
+                        }
+                    }
                     let (fails, amb) = state_failures(s.post, gu);
                     out.add("not_judged/ambiguous_orientation", amb);
                     if !fails.is_empty() {
                         let aspect = tri::Cert { structure: fails.clone(), ..Default::default() }.aspect();
-                        bad.push((format!("{:?}/{}", gu, aspect), fails.iter().take(3).cloned().collect::<Vec<_>>().join("; ")));
+                        // root-cause class for interior victims: the fan retriangulation connects one boundary
+                        // vertex (the apex) to the boundary facets of the cavity; when some cavity-boundary vertex is
+                        // exactly (or within the tolerance band) coplanar with a boundary facet that does not contain
+                        // it, fan cells through it are flat and get skipped (recorded finding); a topological failure
+                        // on a cavity without such a degeneracy is a different defect
+                        let deg = if class != "interior" {
+                            ""
+                        } else if degenerate_cavity(s.pre, *uuid) {
+                            "/degenerate-cavity"
+                        } else if !cavity_star_shaped_from_fan_apex(s.pre, s.post, *uuid) {
+                            "/cavity-not-star-shaped-from-fan-apex"
+                        } else {
+                            ""
+                        };
+                        bad.push((format!("{:?}/{}{}", gu, aspect, deg), fails.iter().take(3).cloned().collect::<Vec<_>>().join("; ")));
+                    } else if !s.post.cells.is_empty() && refcheck::check_convex_boundary(s.pre).fails.is_empty() && !refcheck::check_convex_boundary(s.post).fails.is_empty() {
+                        // "a valid triangulation minus that vertex" covers the convex hull of the remaining vertices:
+                        // a boundary that was convex before the removal and has a vertex strictly outside one of its
+                        // facets afterwards (exact, beyond the band) is not the boundary of a triangulation of them.
+                        // (Later insertions outside such a region create overlapping cells, which no level sees.)
+                        let c = refcheck::check_convex_boundary(s.post);
+                        out.count("convexity_lost");
+                        bad.push((format!("{:?}/convex/boundary-not-convex-after-removal", gu), c.fails.iter().take(2).cloned().collect::<Vec<_>>().join("; ")));
                     } else if s.pre_cfg.repair_policy != "Never" && !s.post.cells.is_empty() && refcheck::check_delaunay(s.pre).violations.is_empty() {
                         // automatic repair ran on a state that was Delaunay before the removal:
                         // the Delaunay level must be certified afterwards
@@ -152,6 +186,174 @@ where
     if out.samples.len() < 3 && log.len() > 8 {
         out.sample(json!({"D": D, "kernel": kn.name(), "start": start["start"], "ops": log.iter().take(12).cloned().collect::<Vec<_>>(), "total_ops": log.len()}));
     }
+}
+
+/// Does the cavity of `uuid` (the facets of its star cells opposite to it) have a boundary vertex that is
+/// coplanar, exactly or within the predicates' tolerance band, with a boundary facet not containing it?
+fn degenerate_cavity<const D: usize>(m: &RefModel<D>, uuid: uuid::Uuid) -> bool {
+    use crate::exact::{Band, classify, err_orient, orient_det, tol_orient};
+    let Some(v) = m.verts.iter().find(|v| v.uuid == uuid) else { return false };
+    let mut facets: Vec<Vec<[f64; D]>> = Vec::new();
+    let mut bverts: Vec<[f64; D]> = Vec::new();
+    for c in &m.cells {
+        if !c.v.contains(&v.key) {
+            continue;
+        }
+        let f: Vec<[f64; D]> = c.v.iter().filter(|k| **k != v.key).filter_map(|k| m.vertex(*k).map(|w| w.p)).collect();
+        if f.len() != D {
+            return false;
+        }
+        for p in &f {
+            if !bverts.iter().any(|q| q.iter().zip(p.iter()).all(|(a, b)| a.to_bits() == b.to_bits())) {
+                bverts.push(*p);
+            }
+        }
+        facets.push(f);
+    }
+    for f in &facets {
+        for w in &bverts {
+            if f.iter().any(|q| q.iter().zip(w.iter()).all(|(a, b)| a.to_bits() == b.to_bits())) {
+                continue;
+            }
+            let mut s: Vec<[f64; D]> = f.clone();
+            s.push(*w);
+            let od = orient_det(&s);
+            if !matches!(classify(&od, tol_orient(&s), err_orient(&s)), Band::Decided(_)) {
+                return true;
+            }
+        }
+    }
+    false
+}
+
+/// Exact `D! x volume` of the cells of `pre` that are not in `post` and of the cells of `post` that are not in `pre`
+/// (cells compared as vertex-UUID sets).
+fn star_volume_balance<const D: usize>(pre: &RefModel<D>, post: &RefModel<D>, _uuid: uuid::Uuid) -> Option<(crate::exact::Dy, crate::exact::Dy)> {
+    use crate::exact::{Dy, orient_det};
+    let ids = |m: &RefModel<D>, c: &crate::model::MCell<D>| -> Option<Vec<uuid::Uuid>> {
+        let mut x: Vec<uuid::Uuid> = Vec::new();
+        for k in &c.v {
+            x.push(m.vertex(*k)?.uuid);
+        }
+        x.sort();
+        Some(x)
+    };
+    let set = |m: &RefModel<D>| -> Option<std::collections::HashSet<Vec<uuid::Uuid>>> { m.cells.iter().map(|c| ids(m, c)).collect() };
+    let (a, b) = (set(pre)?, set(post)?);
+    let vol = |m: &RefModel<D>, other: &std::collections::HashSet<Vec<uuid::Uuid>>| -> Option<Dy> {
+        let mut s = Dy::zero();
+        for c in &m.cells {
+            if other.contains(&ids(m, c)?) {
+                continue;
+            }
+            let p = m.cell_points(c)?;
+            if p.len() != D + 1 {
+                return None;
+            }
+            s = s.add(&orient_det(&p).abs());
+        }
+        Some(s)
+    };
+    Some((vol(pre, &b)?, vol(post, &a)?))
+}
+
+fn m_points<const D: usize>(m: &RefModel<D>, c: &crate::model::MCell<D>) -> Vec<[f64; D]> {
+    m.cell_points(c).unwrap_or_default()
+}
+
+/// The fan retriangulation joins one cavity-boundary vertex (the apex: the vertex common to all cells that are
+/// new in `post`) to the boundary facets that do not contain it. That tiles the cavity only if the apex sees every
+/// such facet from the side on which the removed vertex was. Returns false when it does not (or when no apex can be
+/// identified), i.e. when the recorded defect "a fan from one apex is not a retriangulation of the cavity" applies.
+fn cavity_star_shaped_from_fan_apex<const D: usize>(pre: &RefModel<D>, post: &RefModel<D>, uuid: uuid::Uuid) -> bool {
+    use crate::exact::orient_det;
+    let Some(v) = pre.verts.iter().find(|v| v.uuid == uuid) else { return true };
+    let ids = |m: &RefModel<D>, c: &crate::model::MCell<D>| -> Option<Vec<uuid::Uuid>> {
+        let mut x: Vec<uuid::Uuid> = Vec::new();
+        for k in &c.v {
+            x.push(m.vertex(*k)?.uuid);
+        }
+        x.sort();
+        Some(x)
+    };
+    let old: std::collections::HashSet<Vec<uuid::Uuid>> = pre.cells.iter().filter_map(|c| ids(pre, c)).collect();
+    let new_cells: Vec<Vec<uuid::Uuid>> = post.cells.iter().filter_map(|c| ids(post, c)).filter(|x| !old.contains(x)).collect();
+    if new_cells.is_empty() {
+        return false;
+    }
+    let apex: Vec<uuid::Uuid> = new_cells[0].iter().copied().filter(|u| new_cells.iter().all(|c| c.contains(u))).collect();
+    if std::env::var_os("DVERIF_DEBUG").is_some() {
+        let star = pre.cells.iter().filter(|c| c.v.contains(&v.key)).count();
+        let gone: Vec<Vec<uuid::Uuid>> = { let newset: std::collections::HashSet<Vec<uuid::Uuid>> = post.cells.iter().filter_map(|c| ids(post, c)).collect(); pre.cells.iter().filter_map(|c| ids(pre, c)).filter(|x| !newset.contains(x)).collect() };
+        eprintln!("victim {:?} star {} cells; {} cells of pre are gone; {} new cells; common vertices of new cells: {}; pre cells {} post cells {}", v.p, star, gone.len(), new_cells.len(), apex.len(), pre.cells.len(), post.cells.len());
+        let gone_not_star = gone.iter().filter(|c| !c.contains(&uuid)).count();
+        eprintln!("cells gone that did not contain the victim: {}", gone_not_star);
+        let pt = |u: &uuid::Uuid| pre.verts.iter().find(|w| w.uuid == *u).map(|w| w.p);
+        for u in &apex {
+            eprintln!("  common vertex {:?}", pt(u));
+        }
+        if apex.len() == 2 {
+            let in_pre = pre.cells.iter().filter_map(|c| ids(pre, c)).filter(|x| x.contains(&apex[0]) && x.contains(&apex[1])).count();
+            let in_pre_star = pre.cells.iter().filter_map(|c| ids(pre, c)).filter(|x| x.contains(&apex[0]) && x.contains(&apex[1]) && x.contains(&uuid)).count();
+            eprintln!("  cells of pre containing both common vertices: {} (of which in the star of the victim: {})", in_pre, in_pre_star);
+        }
+        for c in &new_cells {
+            eprintln!("  new cell {:?}", c.iter().map(|u| pt(u)).collect::<Vec<_>>());
+        }
+        for c in pre.cells.iter().filter(|c| c.v.contains(&v.key)) {
+            eprintln!("  star cell {:?}", m_points(pre, c));
+        }
+    }
+    // independent of which vertex the apex was: cells that tile the cavity have the volume of the removed star
+    {
+        use crate::exact::Dy;
+        let vol = |m: &RefModel<D>, want: &dyn Fn(&Vec<uuid::Uuid>) -> bool| -> Dy {
+            let mut s = Dy::zero();
+            for c in &m.cells {
+                let Some(x) = ids(m, c) else { continue };
+                if !want(&x) {
+                    continue;
+                }
+                if let Some(p) = m.cell_points(c) {
+                    if p.len() == D + 1 {
+                        s = s.add(&orient_det(&p).abs());
+                    }
+                }
+            }
+            s
+        };
+        let removed = vol(pre, &|x| x.contains(&uuid));
+        let added = vol(post, &|x| !old.contains(x));
+        if std::env::var_os("DVERIF_DEBUG").is_some() {
+            eprintln!("D! x volume of the removed star {:e}, of the new cells {:e}", removed.approx(), added.approx());
+        }
+        if removed.cmp(&added) != std::cmp::Ordering::Equal {
+            return false;
+        }
+    }
+    let Some(apex) = apex.first().and_then(|u| pre.verts.iter().find(|w| w.uuid == *u)) else { return false };
+    if apex.uuid != uuid && new_cells.iter().all(|c| c.contains(&apex.uuid)) && new_cells[0].iter().filter(|u| new_cells.iter().all(|c| c.contains(u))).count() > 1 {
+        // several vertices are common to all new cells: the apex cannot be identified; the volume test above decides
+        return true;
+    }
+    for c in &pre.cells {
+        if !c.v.contains(&v.key) || c.v.contains(&apex.key) {
+            continue;
+        }
+        let f: Vec<[f64; D]> = c.v.iter().filter(|k| **k != v.key).filter_map(|k| pre.vertex(*k).map(|w| w.p)).collect();
+        if f.len() != D {
+            return false;
+        }
+        let mut with_v = f.clone();
+        with_v.push(v.p);
+        let mut with_a = f.clone();
+        with_a.push(apex.p);
+        let (sv, sa) = (orient_det(&with_v).sign(), orient_det(&with_a).sign());
+        if sv == 0 || sa != sv {
+            return false;
+        }
+    }
+    true
 }
 
 pub fn run_case(ctx: &Ctx, out: &mut Out, cs: u64, d: usize, kn: Kn) {
